@@ -276,10 +276,35 @@ def _reads(fn, node, local):
     return any((o.get("c") or o.get("m") or [None])[0] == local for o in rv.get("ops", []))
 
 
+def r16_6(ctx, fx):
+    """open_substream_or_dial is transactional: Ok <=> the action was parked exactly once (pending_actions or pending_dials),
+    Err => nothing was parked (the caller registers the failure; a parked action would settle the query a second time)"""
+    from common import park_nodes
+    fn = ctx.fn(fx, K + "open_substream_or_dial", "R16.6")
+    if fn is None:
+        return
+    stores = [c.node for c in park_nodes(fn, "pending_dials")] + [c.node for c in fn.calls(r"HashMap(<.*>)?::insert$") if "pending_actions" in fn.origin(c.args[0]) or any("pending_actions" in x for x in guards.rootstrs(fn, c.args[0]))]
+    ctx.anchor("R16.6", "open_substream_or_dial: park sites", len(stores), 3, cfg=fx.cfg)
+    oks = [n for n, sh in fn.exits() if all(x.startswith("Ok") for x in sh)]
+    errs = [n for n, sh in fn.exits() if any(not x.startswith("Ok") for x in sh)]
+    r = fn.reach([fn.entry], avoid=stores)
+    ctx.ob("R16.6", "open_substream_or_dial/Ok-implies-parked", bool(oks) and not [n for n in oks if n in r], site=fn.site(fn.entry), cfg=fx.cfg)
+    bad = [fn.site(e) for st in stores for e in errs if e in fn.reach([st], after=True)]
+    ctx.ob("R16.6", "open_substream_or_dial/Err-implies-not-parked", not bad, site=fn.site(fn.entry), cfg=fx.cfg, detail=str(sorted(set(bad))))
+    twice = [fn.site(a) for a in stores for b in stores if b in fn.reach([a], after=True)]
+    ctx.ob("R16.6", "open_substream_or_dial/parked-at-most-once", not twice, site=fn.site(fn.entry), cfg=fx.cfg, detail=str(twice))
+    # the substream id tracked in pending_substreams is the one the action is filed under
+    ps = [c for c in fn.calls(r"HashMap(<.*>)?::insert$") if "pending_substreams" in fn.origin(c.args[0])]
+    pa = [c for c in fn.calls(r"HashMap(<.*>)?::insert$") if c.node in stores]
+    ok = len(ps) == len(pa) and all(any(guards.rootstrs(fn, a.args[1]) == guards.rootstrs(fn, b.args[1]) and b.node in fn.reach([a.node], after=True) for b in pa) for a in ps)
+    ctx.ob("R16.6", "open_substream_or_dial/tracked-substream-id-matches-the-parked-action", ok, site=fn.site(fn.entry), cfg=fx.cfg)
+
+
 def run(ctx):
     fx = ctx.facts("default")
     r16_5(ctx, fx)
     r16_1(ctx, fx)
     r16_2(ctx, fx)
+    r16_6(ctx, fx)
     r16_3(ctx, fx)
     r16_4(ctx, fx)
